@@ -138,3 +138,36 @@ CHECKS["C10"] = {
         {"pkg": "gbnprop", "run": "TestC10Handshake", "checks": (2000, 30000), "shards": (1, 8), "timeout": (900, 5400), "gomaxprocs": [16, 1, 2, 4]},
     ],
 }
+
+CHECKS["C18"] = {
+    "level": "exploration",
+    "rule": ("test binary built with -race (GORACE=halt_on_error=1). (a) rapid-generated virtual-time scenarios with keepalive on and all periods (ping, pong, resend, latency, pacing, fault delays) multiples of one "
+             "base period so that timer expiries and packet arrivals coincide at identical virtual instants, plus up to 12 extra application goroutines calling Send, Recv, SetSendTimeout, SetRecvTimeout and Close at those instants; "
+             "(b) rapid-generated real-time stress of IntervalAwareForceTicker with exactly the call mix of the send loop (on tick: pong.Reset, pong.Resume, ping.Reset) and of the receive loop (ping.Reset, pong.IsActive/Pause), "
+             "readers of NextTickIn/LastTimedTick, and three goroutines driving TimeoutManager Sent/Received/Get*/Set*. Oracle: no race report, no panic (close of closed channel, send on closed channel), no deadlock (watchdog). "
+             "Non-trivial: a ping transmission coincided with a packet arrival or extra API goroutines ran; every stress case; distinct by case."),
+    "assumptions": ["the race detector only sees interleavings that actually ran: this is sampling, the weakest claim of the set"],
+    "units": [
+        {"pkg": "gbnprop", "run": "TestC18RaceScenarios", "race": True, "checks": (700, 8000), "shards": (1, 8), "timeout": (900, 5400), "gomaxprocs": [16, 8, 4, 2]},
+        {"pkg": "gbnprop", "run": "TestC18Stress", "race": True, "checks": (150, 1500), "shards": (1, 4), "timeout": (900, 5400)},
+    ],
+}
+
+CHECKS["C07"] = {
+    "level": "fault_enumeration",
+    "rule": ("(1) every byte string of length 0..3, and of length 4 with first byte 0..7 (thorough: all 2^32 over 16 shards), through gbn.Deserialize; all strings <=2 bytes and a header/length grid through MsgData.Deserialize; "
+             "(2) all 256 SYN N values against a live NewServerConn followed by SYNACK and one of three follow-ups (data / ACK+NACK with extreme values / another SYN); "
+             "(3) for N in 1..3 (thorough: 1..4) a live client sender driven by a raw peer into every (base mod s, outstanding) state, then one ACK or NACK with each of the 256 sequence values, then 1.5 virtual seconds of running on (resend timer, more sends); "
+             "(4) rapid: up to 8 arbitrary/hostile packets injected before, during or after the handshake of a live pair; (5) Noise handshake and record stream fed mutated/truncated/random bytes, stripJSONWrapper+protojson on generated JSON-ish strings (mboxprop units); "
+             "native fuzzing of the decoders in the thorough tier. Oracle: no panic anywhere (a panic in a connection goroutine kills the worker and is attributed to the running case), Deserialize never returns both value and error, "
+             "and the hook reports base,top < s, size <= n, s = n+1 after every step. Non-trivial: the input is not a well-formed packet for the state it is presented in or carries an out-of-range field; distinct by input."),
+    "exhaustive_scope": "byte strings <=3 (and the stated 4-byte range); 256 SYN values x 3 follow-ups; all (N<=3, base, size, ACK|NACK, value) injections",
+    "assumptions": ["forged ACK/NACKs may break delivery (Noise detects that); only crash-freedom and bookkeeping are asserted"],
+    "units": [
+        {"pkg": "gbnprop", "run": "TestC07EnumDecoder", "kind": "plain", "shards": (1, 16), "timeout": (600, 3600)},
+        {"pkg": "gbnprop", "run": "TestC07SynValues", "kind": "plain"},
+        {"pkg": "gbnprop", "run": "TestC07WindowInjection", "kind": "plain", "shards": (1, 8), "timeout": (900, 3600)},
+        {"pkg": "gbnprop", "run": "TestC07Junk", "checks": (1500, 20000), "shards": (1, 8), "timeout": (900, 3600)},
+        {"pkg": "gbnprop", "run": "FuzzC07Deserialize", "kind": "fuzz", "fuzztime": (0, 60), "tiers": ("thorough",), "parallel": 8},
+    ],
+}
